@@ -4,6 +4,7 @@ package c07
 import (
 	"errors"
 	"fmt"
+	"github.com/scrapli/scrapligo/channel"
 	"io"
 	"regexp"
 	"runtime"
@@ -49,6 +50,9 @@ type Case struct {
 	// OnCloseHook (generic, network): the driver has an on-close function that sends a command;
 	// with the peer gone it fails, and the close must complete all the same.
 	OnCloseHook bool `json:"on_close_hook,omitempty"`
+	// StallKind (generic, network): which operation is the one the device does not answer
+	// ("" = a command, "interactive" = an interactive send whose expected response never comes)
+	StallKind string `json:"stall_kind,omitempty"`
 	// RoundNoOp: the re-open rounds run no operation: Close follows Open at once
 	RoundNoOp bool `json:"round_no_op,omitempty"`
 	// StaleStays (wall clock, close behaviour block): the read parked at the end of a session is
@@ -60,6 +64,8 @@ var states = []string{
 	"idle", "eof", "err-pending", "err-consumed", "data-concurrent", "err-concurrent", "eof-concurrent", "op-inflight",
 	// Close follows Open at once: no operation, the read loop may not even have started
 	"just-opened",
+	// an operation ran into its timeout (and returned) before the close
+	"op-timed-out",
 }
 
 func gen(t *rapid.T) Case {
@@ -76,6 +82,7 @@ func gen(t *rapid.T) Case {
 		Reopen:      rapid.SampledFrom([]int{0, 0, 0, 1, 2}).Draw(t, "reopen"),
 		OnCloseHook: rapid.IntRange(0, 3).Draw(t, "onCloseHook") == 0,
 		RoundNoOp:   rapid.IntRange(0, 2).Draw(t, "roundNoOp") == 0,
+		StallKind:   rapid.SampledFrom([]string{"", "interactive"}).Draw(t, "stallKind"),
 	}
 
 	if c.State == "just-opened" {
@@ -94,7 +101,12 @@ func gen(t *rapid.T) Case {
 		// driver is not meant to be opened twice on the pinned tree: after a 1.1 session it cannot
 		// read the next hello (the delimiter pattern stays that of 1.1), and the read loop of the
 		// previous session may still be running when the next Open rewrites the pattern.
-		c.Reopen = 0
+		//
+		// A 1.0 driver does take a second session, though; that much is exercised on the virtual
+		// clock (genRT switches it off again: the race detector would report the second caveat).
+		if c.Version != "1.0" || c.Subscribe {
+			c.Reopen = 0
+		}
 	}
 
 	if c.State == "data-concurrent" || c.State == "err-concurrent" || c.State == "eof-concurrent" {
@@ -229,7 +241,19 @@ func build(c Case) (*session, error) {
 
 		s.open, s.close = d.Open, d.Close
 		s.op = func(time.Duration) error { _, e := d.SendCommand("show Q"); return e }
-		s.stallOp = func(time.Duration) error { stall = true; _, e := d.SendCommand("show Z"); return e }
+		s.stallOp = func(time.Duration) error {
+			stall = true
+
+			if c.StallKind == "interactive" {
+				_, e := d.SendInteractive([]*channel.SendInteractiveEvent{{ChannelInput: "show Z", ChannelResponse: "never said"}, {ChannelInput: "y"}})
+
+				return e
+			}
+
+			_, e := d.SendCommand("show Z")
+
+			return e
+		}
 
 		return s, nil
 	}
@@ -251,7 +275,19 @@ func build(c Case) (*session, error) {
 
 	s.open, s.close = d.Open, d.Close
 	s.op = func(time.Duration) error { _, e := d.SendCommand("show Q"); return e }
-	s.stallOp = func(time.Duration) error { stall = true; _, e := d.SendCommand("show Z"); return e }
+	s.stallOp = func(time.Duration) error {
+		stall = true
+
+		if c.StallKind == "interactive" {
+			_, e := d.SendInteractive([]*channel.SendInteractiveEvent{{ChannelInput: "show Z", ChannelResponse: "never said"}, {ChannelInput: "y"}})
+
+			return e
+		}
+
+		_, e := d.SendCommand("show Z")
+
+		return e
+	}
 
 	return s, nil
 }
@@ -270,6 +306,10 @@ func genRT(t *rapid.T) Case {
 	c := gen(t)
 	c.RealTime = true
 	c.ReadDelayNS = int64(rapid.SampledFrom([]time.Duration{0, 10 * time.Microsecond, 250 * time.Microsecond}).Draw(t, "readDelayRT"))
+	if c.Driver == "netconf" {
+		c.Reopen = 0
+	}
+
 	c.StaleStays = c.CloseMode == sim.CloseBlock && c.Reopen > 0 && rapid.Bool().Draw(t, "staleStays")
 
 	if c.StaleStays {
@@ -437,6 +477,22 @@ func run1(c Case) ev.Verdict {
 			s.pipe.Release()
 
 			return ev.Fail("operation after a transport error did not return within 1h (virtual)")
+		}
+	case "op-timed-out":
+		timedOut := make(chan error, 1)
+		go func() { timedOut <- s.stallOp(0) }()
+
+		select {
+		case e := <-timedOut:
+			if e == nil {
+				s.pipe.Release()
+
+				return ev.Fail("operation the device never answers reported success")
+			}
+		case <-time.After(opTimeout(c) + time.Hour):
+			s.pipe.Release()
+
+			return ev.Fail("operation the device never answers did not return within its timeout + 1h (virtual)")
 		}
 	case "op-inflight":
 		opRunning = true
